@@ -478,6 +478,16 @@ def round5():
         R("r5-leg-abs-nodes-only-ok", "C12", FQ, "    xs = xlg * (0.5 * (xu - xl)) + (0.5 * (xu + xl))  # (n, *nx)", "    xs = xlg * (0.5 * torch.abs(xu - xl)) + (0.5 * (xu + xl))  # (n, *nx)", expect="silent",
           note="mirrored node set with the same (symmetric) weights is the same rule"),
         R("r5-leg-abs-weights", "C12", FQ, "    wlg *= 0.5 * (xu - xl)", "    wlg *= 0.5 * (xu - xl).abs()", "C12-A"),
+        # C16-S on symbolic chain states
+        R("r5-mh-merged-accept-ok", "C16", "xitorch/_impls/integrate/mcsamples/mcmc.py", "        if logpratio > 0:\n            accept = True\n        else:\n            accept = log_rand[i] < logpratio\n",
+          "        accept = logpratio > 0 or log_rand[i] < logpratio\n", expect="silent"),
+        R("r5-mh-direct-compare-ok", "C16", "xitorch/_impls/integrate/mcsamples/mcmc.py", "        if logpratio > 0:\n            accept = True\n        else:\n            accept = log_rand[i] < logpratio\n",
+          "        accept = logpnext > logpx or log_rand[i] < logpnext - logpx\n", expect="silent"),
+        R("r5-mh-stale-logp", "C16", "xitorch/_impls/integrate/mcsamples/mcmc.py", "        if accept:\n            logpx = logpnext\n            x = xnext", "        if accept:\n            x = xnext", "C16-S"),
+        R("r5-mh-same-random", "C16", "xitorch/_impls/integrate/mcsamples/mcmc.py", "            accept = log_rand[i] < logpratio", "            accept = log_rand[0] < logpratio", "C16-S"),
+        R("r5-mh-always-accept-uphill-only", "C16", "xitorch/_impls/integrate/mcsamples/mcmc.py", "            accept = log_rand[i] < logpratio", "            accept = False", "C16-S",
+          note="a greedy walk: downhill moves are never accepted, the chain does not sample p"),
+        R("r5-mh-restart-from-x0", "C16", "xitorch/_impls/integrate/mcsamples/mcmc.py", "    samples = _mh_sample(logpfcn, x, pparams, nsamples, step_size, True)", "    samples = _mh_sample(logpfcn, x0, pparams, nsamples, step_size, True)", ["C16-S", "C16-U"]),
         # class tokens: table-driven dispatch
         R("r5-dispatch-table-ok", "C09", PF, "        if isinstance(obj, EditableModule):\n            return EditableModulePureFunction(obj, fcn)\n        elif isinstance(obj, torch.nn.Module):\n            return TorchNNPureFunction(obj, fcn)\n        else:\n            raise RuntimeError(errmsg)",
           "        for objtype, wrapper in ((EditableModule, EditableModulePureFunction), (torch.nn.Module, TorchNNPureFunction)):\n            if isinstance(obj, objtype):\n                return wrapper(obj, fcn)\n        raise RuntimeError(errmsg)", expect="silent"),
